@@ -99,10 +99,28 @@ Forward(L, kind, known, Unew, m) ==
                     ELSE SolveLin(IminusCA(Md(L.dt * L.QI[m][m]), L.A), rhs)
          IN Forward(L, kind, known, Append(Unew, um), m + 1)
 
+\* kind "multi": multi_implicit -- two implicit parts f1 = A u (preconditioner QI = Q1) and f2 = B u (preconditioner QE = Q2,
+\* lower triangular WITH diagonal), two successive solves per node
+FB(L, u) == MV(L.B, u)
+KnownMulti(L, u0, U, tau) ==
+    [m \in 1 .. L.M |->
+        VAdd(VAdd(VSum([j \in 1 .. L.M |-> VAdd(VSc(Md(L.dt * (L.Q[m][j] - L.QI[m][j] + P)), FI(L, U[j])),
+                                                 VSc(Md(L.dt * L.Q[m][j]), FB(L, U[j])))], L.n), u0), TauAt(L, tau, m))]
+Q2Int(L, U) == [m \in 1 .. L.M |-> VSum([j \in 1 .. L.M |-> VSc(Md(L.dt * L.QE[m][j]), FB(L, U[j]))], L.n)]
+RECURSIVE ForwardMulti(_, _, _, _, _)
+ForwardMulti(L, known, q2, Unew, m) ==
+    IF m > L.M THEN Unew
+    ELSE LET r1 == VAdd(known[m], VSum([j \in 1 .. m - 1 |-> VSc(Md(L.dt * L.QI[m][j]), FI(L, Unew[j]))], L.n))
+             v  == SolveLin(IminusCA(Md(L.dt * L.QI[m][m]), L.A), r1)
+             r2 == VAdd(VSub(v, q2[m]), VSum([j \in 1 .. m - 1 |-> VSc(Md(L.dt * L.QE[m][j]), FB(L, Unew[j]))], L.n))
+             um == SolveLin(IminusCA(Md(L.dt * L.QE[m][m]), L.B), r2)
+         IN ForwardMulti(L, known, q2, Append(Unew, um), m + 1)
+
 \* kind "rk": Runge-Kutta stage form U_m = u0 + dt sum_{j<=m} a_mj F(U_j) with the Butcher matrix stored in QI
 \* (RungeKutta.update_nodes: no old terms, no tau; implicit solve only where the diagonal entry is non-zero)
 Sweep(L, kind, u0, U, tau) ==
     IF kind = "rk" THEN Forward(L, "impl", [m \in 1 .. L.M |-> u0], <<>>, 1)
+    ELSE IF kind = "multi" THEN ForwardMulti(L, KnownMulti(L, u0, U, tau), Q2Int(L, U), <<>>, 1)
     ELSE Forward(L, kind, Known(L, kind, u0, U, tau), <<>>, 1)
 \* end value of a Runge-Kutta step: last stage if the last row of the Butcher matrix equals the weights, else u0 + dt sum w F
 EndPointRK(L, u0, U) ==
@@ -110,12 +128,23 @@ EndPointRK(L, u0, U) ==
     ELSE VAdd(u0, VSum([m \in 1 .. L.M |-> VSc(Md(L.dt * L.w[m]), FT(L, U[m]))], L.n))
 
 SweepDefined(L, kind) ==
-    kind = "expl" \/ (kind = "rk" /\ \A m \in 1 .. L.M : Md(L.dt * L.QI[m][m]) = 0 \/ ~ Singular(IminusCA(Md(L.dt * L.QI[m][m]), L.A))) \/ \A m \in 1 .. L.M : (kind = "impl" /\ Md(L.dt * L.QI[m][m]) = 0) \/ ~ Singular(IminusCA(Md(L.dt * L.QI[m][m]), L.A))
+    CASE kind = "expl"  -> TRUE
+      [] kind = "multi" -> \A m \in 1 .. L.M : ~ Singular(IminusCA(Md(L.dt * L.QI[m][m]), L.A))
+                                                /\ ~ Singular(IminusCA(Md(L.dt * L.QE[m][m]), L.B))
+      [] kind \in {"rk", "impl"} -> \A m \in 1 .. L.M : Md(L.dt * L.QI[m][m]) = 0 \/ ~ Singular(IminusCA(Md(L.dt * L.QI[m][m]), L.A))
+      [] OTHER -> \A m \in 1 .. L.M : ~ Singular(IminusCA(Md(L.dt * L.QI[m][m]), L.A))
 
 \* ---- C02: the algebraic iteration the sweep must realise ------------------------------
 \* (I - dt QD (x) A_impl) Unew - dt QE (x) f_expl(Unew) = u0 + dt (Q - QD) (x) f_impl(U) + dt (Q - QE) (x) f_expl(U) + tau
 PicardHolds(L, kind, u0, U, tau, Unew) ==
-    IF kind = "rk" THEN \A m \in 1 .. L.M :
+    IF kind = "multi" THEN
+        \* (I - dt Q2_mm B) U_m - sum_{j<m} dt Q2_mj f2(U_j) + dt Q2 f2(U^old)_m = v_m ,
+        \* (I - dt Q1_mm A) v_m = u0 + tau + dt Q (f1+f2)(U^old) - dt Q1 f1(U^old) + sum_{j<m} dt Q1_mj f1(U_j)
+        \A m \in 1 .. L.M :
+            LET v == VAdd(VSub(Unew[m], VSum([j \in 1 .. m |-> VSc(Md(L.dt * L.QE[m][j]), FB(L, Unew[j]))], L.n)), Q2Int(L, U)[m])
+            IN VSub(v, VSc(Md(L.dt * L.QI[m][m]), FI(L, v)))
+                 = VAdd(KnownMulti(L, u0, U, tau)[m], VSum([j \in 1 .. m - 1 |-> VSc(Md(L.dt * L.QI[m][j]), FI(L, Unew[j]))], L.n))
+    ELSE IF kind = "rk" THEN \A m \in 1 .. L.M :
             Unew[m] = VAdd(u0, VSum([j \in 1 .. m |-> VSc(Md(L.dt * L.QI[m][j]), FT(L, Unew[j]))], L.n))
     ELSE
     \A m \in 1 .. L.M :
